@@ -23,6 +23,8 @@ pub struct Enc {
     pub col_order: Vec<String>,
     k: usize,
     pub prefix: String,
+    /// grid mode: the operands are concrete, so a plain division circuit folds to a constant at once
+    pub direct_div: bool,
 }
 
 pub fn bv_lit(v: i128, bits: u32) -> String {
@@ -94,7 +96,7 @@ fn ite(c: &str, a: &str, b: &str) -> String {
 
 impl Enc {
     pub fn new(prefix: &str) -> Enc {
-        Enc { decls: vec![], asserts: vec![], cols: HashMap::new(), col_order: vec![], k: 0, prefix: prefix.to_string() }
+        Enc { decls: vec![], asserts: vec![], cols: HashMap::new(), col_order: vec![], k: 0, prefix: prefix.to_string(), direct_div: false }
     }
 
     pub fn def(&mut self, sort: &str, body: String) -> String {
@@ -211,11 +213,15 @@ impl Enc {
                 let mut eu = a.eu.clone();
                 let mut found = "false".to_string();
                 let mut anynull = "false".to_string();
-                for it in list {
+                for (k, it) in list.iter().enumerate() {
                     let b = self.expr(it)?;
                     let b = self.as_ty(b, &a.ty)?;
                     em = or2(&em, &b.em);
-                    eu = or2(&eu, &b.eu);
+                    // a list with non-literal items is planned as a chain of `OR`ed equalities, which
+                    // short-circuits: only the expression and the first item are certainly evaluated
+                    if k == 0 {
+                        eu = or2(&eu, &b.eu);
+                    }
                     found = or2(&found, &and2(&not1(&b.n), &format!("(= {} {})", a.v, b.v)));
                     anynull = or2(&anynull, &b.n);
                 }
@@ -419,6 +425,41 @@ impl Enc {
         }
     }
 
+    /// Truncating signed division of a `w`-bit value by a positive constant, WITHOUT a division circuit:
+    /// fresh q, r with  x = q*c + r,  r has the sign of x (or is 0),  |r| < c.  The constraints are
+    /// definitional (for every x exactly one (q, r) satisfies them), so they go to the global
+    /// assumptions and cannot make a query vacuous.  Returns (q, r) sign-extended to 256 bits.
+    fn div_const(&mut self, x: &str, w: u32, c: i128) -> (String, String) {
+        if self.direct_div {
+            let cl = if c >= 0 { format!("(_ bv{} {w})", c) } else { format!("(bvneg (_ bv{} {w}))", c.unsigned_abs()) };
+            return (format!("((_ sign_extend {}) (bvsdiv {x} {cl}))", 256 - w), format!("((_ sign_extend {}) (bvsrem {x} {cl}))", 256 - w));
+        }
+        self.k += 1;
+        let q = format!("{}q{}", self.prefix, self.k);
+        let r = format!("{}r{}", self.prefix, self.k);
+        let sort = format!("(_ BitVec {w})");
+        self.decls.push(format!("(declare-const {q} {sort})"));
+        self.decls.push(format!("(declare-const {r} {sort})"));
+        let e = w + 130; // wide enough for q*c + r without wrap-around
+        let lit = |v: i128| {
+            if v >= 0 {
+                format!("(_ bv{} {})", v, e)
+            } else {
+                format!("(bvneg (_ bv{} {}))", v.unsigned_abs(), e)
+            }
+        };
+        let ext = |t: &str| format!("((_ sign_extend {}) {t})", e - w);
+        let (xe, qe, re) = (ext(x), ext(&q), ext(&r));
+        let zero = lit(0);
+        self.asserts.push(format!("(= {xe} (bvadd (bvmul {qe} {}) {re}))", lit(c)));
+        self.asserts.push(format!(
+            "(ite (bvsge {xe} {zero}) (and (bvsge {re} {zero}) (bvslt {re} {})) (and (bvsle {re} {zero}) (bvsgt {re} {})))",
+            lit(c),
+            lit(-c)
+        ));
+        (format!("((_ sign_extend {}) {q})", 256 - w), format!("((_ sign_extend {}) {r})", 256 - w))
+    }
+
     fn bv256(v: i128) -> String {
         // two's complement of an i128 in 256 bits
         if v >= 0 {
@@ -463,6 +504,54 @@ impl Enc {
                 let x = self.ext256(&a);
                 let x = self.def("(_ BitVec 256)", format!("(bvmul {x} (_ bv86400000 256))"));
                 (x, "true".into())
+            }
+            (Ty::Ts(u1), Ty::Ts(u2)) => {
+                let x = self.ext256(&a);
+                if u2 > u1 {
+                    let f = 1000i128.pow((*u2 - *u1) as u32);
+                    let x = self.def("(_ BitVec 256)", format!("(bvmul {x} {})", Self::bv256(f)));
+                    let (lo, hi) = to.min_max();
+                    (x.clone(), format!("(and (bvsle {} {x}) (bvsle {x} {}))", Self::bv256(lo), Self::bv256(hi)))
+                } else {
+                    // coarser unit: plain integer division (truncates toward zero)
+                    let f = 1000i128.pow((*u1 - *u2) as u32);
+                    let _ = x;
+                    let (q, _r) = self.div_const(&a.v, 64, f);
+                    (self.def("(_ BitVec 256)", q), "true".into())
+                }
+            }
+            (Ty::Date32, Ty::Ts(u)) => {
+                let x = self.ext256(&a);
+                let f = 86400i128 * 1000i128.pow(*u as u32);
+                let x = self.def("(_ BitVec 256)", format!("(bvmul {x} {})", Self::bv256(f)));
+                let (lo, hi) = to.min_max();
+                (x.clone(), format!("(and (bvsle {} {x}) (bvsle {x} {}))", Self::bv256(lo), Self::bv256(hi)))
+            }
+            (Ty::Dec { s, .. }, Ty::Int { .. }) if *s >= 0 => {
+                // decimal -> integer: divide by 10^scale, truncating toward zero
+                let (q, _r) = self.div_const(&a.v, 128, 10i128.pow(*s as u32));
+                let x = self.def("(_ BitVec 256)", q);
+                let (lo, hi) = to.min_max();
+                (x.clone(), format!("(and (bvsle {} {x}) (bvsle {x} {}))", Self::bv256(lo), Self::bv256(hi)))
+            }
+            (Ty::Dec { s: s1, .. }, Ty::Dec { p: p2, s: s2 }) if s2 < s1 => {
+                // fewer fractional digits: round half away from zero
+                let x = self.ext256(&a);
+                let x = self.def("(_ BitVec 256)", x);
+                let div = 10i128.pow((*s1 - *s2) as u32);
+                let half = div / 2;
+                let (q, r) = self.div_const(&a.v, 128, div);
+                let q = self.def("(_ BitVec 256)", q);
+                let r = self.def("(_ BitVec 256)", r);
+                let adj = format!(
+                    "(ite (and (bvsge {x} (_ bv0 256)) (bvsge {r} {h})) (_ bv1 256) (ite (and (bvslt {x} (_ bv0 256)) (bvsle {r} {nh})) {m1} (_ bv0 256)))",
+                    h = Self::bv256(half),
+                    nh = Self::bv256(-half),
+                    m1 = Self::bv256(-1)
+                );
+                let y = self.def("(_ BitVec 256)", format!("(bvadd {q} {adj})"));
+                let (lo, hi) = Ty::Dec { p: *p2, s: 0 }.min_max();
+                (y.clone(), format!("(and (bvsle {} {y}) (bvsle {y} {}))", Self::bv256(lo), Self::bv256(hi)))
             }
             (f, t) => return unsup(format!("cast {f} -> {t}")),
         };
